@@ -91,6 +91,9 @@ theorem localWFB_iff (d : ArrayData) : localWFB d = true ↔ LocalWF d := by
     simp only [Bool.and_eq_true, list_isEmpty_iff]
     apply and_congr Iff.rfl
     rcases hb : d.buffers with _ | ⟨v, ds⟩ <;> simp [allBelow_iff]
+    constructor
+    · intro h; exact ⟨v, ds, ⟨rfl, rfl⟩, h⟩
+    · rintro ⟨_, _, ⟨rfl, rfl⟩, h⟩; exact h
   | binary large =>
     simp only [Bool.and_eq_true, list_isEmpty_iff]
     apply and_congr Iff.rfl
@@ -204,7 +207,7 @@ def RustInv (d : ArrayData) : Prop :=
 theorem validateHead_ok {d : ArrayData} (h : validateHead d = .ok) :
     d.len + d.offset < USIZE ∧
     (d.nulls.isSome = true → (layout d.type).2 = true) ∧
-    d.buffers.length = (layout d.type).1.length ∧
+    (variadic d.type = false → d.buffers.length = (layout d.type).1.length) ∧
     buffersOk (d.len + d.offset) (layout d.type).1 d.buffers = true ∧
     ∀ n, d.nulls = some n → n.len = d.len := by
   unfold validateHead at h
@@ -222,7 +225,7 @@ theorem validateHead_ok {d : ArrayData} (h : validateHead d = .ok) :
       · split at h
         · simp at h
         · rename_i h1 h2 h3
-          refine ⟨hlt, ?_, by simpa using h2, by simpa using h3, ?_⟩
+          refine ⟨hlt, ?_, (by intro hv; simp [hv] at h2; exact h2.2), by simpa using h3, ?_⟩
           · intro hs; cases hc : (layout d.type).2 <;> simp_all
           · intro n hn
             rw [hn] at h
